@@ -22,6 +22,7 @@ global size_of usize == 8;
 
 //@include contracts/shared/sum_specs.rs
 //@include contracts/shared/count_specs.rs
+//@include contracts/shared/unacked_specs.rs
 //@include contracts/shared/send_reliable_specs.rs
 
 broadcast use {count_lemmas::lemma_count_true_all_false};
